@@ -282,6 +282,30 @@ func suiteC08(s *Suite, rng *Rng, tier string) {
 			if m == -1 && !accepted {
 				s.Violate("C08:honest-rejected", "harness sanity: honest list rejected", string(mb))
 			}
+			if m == -1 || m%16 == 3 {
+				// the same list against a key list of another length (one key fewer, one more, none): refused without panic
+				fewer := pks
+				if len(pks) > 0 {
+					fewer = pks[:len(pks)-1]
+				}
+				for _, kl := range [][]*gabikeys.PublicKey{fewer, append(append([]*gabikeys.PublicKey{}, pks...), sess.Pks[0]), {}} {
+					if len(kl) == len(pl) {
+						continue
+					}
+					var pl2 gabi.ProofList
+					if err := json.Unmarshal(mb, &pl2); err != nil {
+						continue
+					}
+					p2, acc2, _ := verifyCase(s, fmt.Sprintf("seed%d:%s:keys=%d-for-%d-proofs", si, kind, len(kl), len(pl2)), false, kl, sess.Context, sess.Nonce, sess.IsSig, nil, pl2)
+					if p2 {
+						nPanic++
+						s.Violate("C08:panic", fmt.Sprintf("ProofList.Verify panicked on %d proofs with %d keys", len(pl2), len(kl)), string(mb))
+					}
+					if acc2 {
+						s.Violate("C08:malformed-accepted:key-count", fmt.Sprintf("%d proofs accepted with %d keys", len(pl2), len(kl)), string(mb))
+					}
+				}
+			}
 			if accepted && m >= 0 {
 				if why := malformed(pl, pks); why != "" {
 					nAccMal++
